@@ -156,6 +156,8 @@ class Prog:
 def need_gap(a, b):
     """is a non-empty gap required between labels a and b (else tokens would fuse)?"""
     ca, cb = POOLS[a][0], POOLS[b][0]
+    if ca == WORD and b == 'lp' and a != 'fname':
+        return True      # `where(`, `then(` would be lexed as a function name: keep keywords apart from `(`
     return PUNCT not in (ca, cb)
 
 
